@@ -13,7 +13,14 @@ def open_case(spec):
     with warnings.catch_warnings():
         warnings.simplefilter("ignore")
         ds = specs.build(spec)
-        before = snapshot(ds)
+        if spec.get("mode") == "file":
+            # (reading the values would load - and cache - what is meant to stay on disk:
+            # the record is taken from a second handle on the same file)
+            import xarray
+            with xarray.open_dataset(ds.encoding["source"]) as twin:
+                before = snapshot(twin)
+        else:
+            before = snapshot(ds)
         conv = specs.bind_convention(spec, ds)
     _OPENED.append((ds, before, f"{spec['conv']} dataset (warm-up {spec.get('warmup') or []})"))
     return ds, conv
@@ -73,7 +80,7 @@ def is_decoded_fill(spec, var):
     """True when xarray's CF decoding has replaced the variable's fill value with NaN."""
     if var.get("fill") is None:
         return False
-    return spec.get("mode", "raw") in ("decoded", "netcdf", "dask")
+    return spec.get("mode", "raw") in ("decoded", "netcdf", "dask", "file")
 
 
 def kind_map(conv):
